@@ -52,8 +52,8 @@ SIM_CFGS = [
 
 def sim_cfg(ctx, i, lim, depth):
     mp, mb, mv, w, b = lim
-    name = f"MC_PoolSim_{i}.cfg"
-    (core.SPECS / name).write_text(f"""SPECIFICATION SpecSim
+    name = ctx.workdir / f"MC_PoolSim_{i}.cfg"
+    name.write_text(f"""SPECIFICATION SpecSim
 CONSTANTS
   MaxProofs = {mp}
   MaxBuckets = {mb}
@@ -69,7 +69,7 @@ CONSTANTS
 INVARIANTS EmitAtDepth C20Inv C22Inv C19Inv
 CHECK_DEADLOCK FALSE
 """)
-    return name
+    return str(name)
 
 
 def run_pool(ctx):
@@ -108,11 +108,8 @@ def run_pool(ctx):
     lines = []
     for i, lim in enumerate(cfgs):
         name = sim_cfg(ctx, i, lim, depth)
-        try:
-            r = core.run_tlc(ctx, "MC_PoolSim", name, workers=1, simulate=nbeh, depth=depth + 2, coverage=False,
-                             timeout=1800)
-        finally:
-            os.unlink(core.SPECS / name)
+        r = core.run_tlc(ctx, "MC_PoolSim", name, workers=1, simulate=nbeh, depth=depth + 2, coverage=False,
+                         timeout=1800)
         if r["violated"]:
             ctx.violation(f"TLC simulation: {r['violated']} violated", {"tlc": core.tlc_counterexample(r["out"])})
             return core.finish(ctx)
